@@ -92,6 +92,12 @@ func sopTerm(n *vh.Names, o SOp) string {
 		return "SQuery " + n.Path(o.P)
 	case "queryerr":
 		return fmt.Sprintf("SQueryErr %s %s", n.Path(o.P), vh.Nat(int(o.V)))
+	case "walk", "walksorted":
+		return "SWalk None"
+	case "walkerr", "walksortederr":
+		return fmt.Sprintf("SWalk (Some %s)", vh.Nat(int(o.V)))
+	case "delcond":
+		return "SDelCond " + n.Path(o.P)
 	case "delete":
 		return "SDelete " + n.Path(o.P)
 	case "hold":
@@ -110,6 +116,12 @@ func aopTerm(n *vh.Names, o SOp) string {
 		return "AQuery " + n.Path(o.P)
 	case "queryerr":
 		return "AQueryErr " + n.Path(o.P)
+	case "walk", "walksorted":
+		return "AQuery []"
+	case "walkerr", "walksortederr":
+		return "AQueryErr []"
+	case "delcond":
+		return "ADelete " + n.Path(o.P)
 	case "delete":
 		return "ADelete " + n.Path(o.P)
 	case "hold":
@@ -401,6 +413,14 @@ func scenarios() []scenario {
 		{"queryerr-literal", []SOp{add("a/b", 1), add("a/c", 2), qerr("a/b", 0), del("a"), add("a/d", 3), get("a/c")}, []int{0, 0, 1, 1}, 60, 1000},
 		{"queryerr-glob", []SOp{add("a/b", 1), add("a/c", 2), qerr("a/*", 0), add("a/e", 5), del("x"), qry("a/*")}, []int{0, 0, 1, 1}, 80, 2000},
 		{"queryerr-second", []SOp{add("a/b/c", 1), add("a/b/d", 2), qerr("a/b/*", 1), add("a/b/e", 3), del("a/b/c"), qerr("", 0)}, []int{0, 0, 1, 1}, 80, 2000},
+		// every read-side traversal parked at each callback x a multi-leaf delete:
+		// the delete must stay blocked on the root lock until the traversal is over,
+		// so the traversal reports all or none of what that delete removes
+		{"walksorted-delete", []SOp{add("a/k", 1), add("b/z", 2), add("c/k", 3), {K: "walksorted"}, del("*/k"), get("c/k")}, []int{0, 0, 1, 1, 2, 2}, 80, 1000},
+		{"walk-delete", []SOp{add("a/k", 1), add("b/z", 2), add("c/k", 3), {K: "walk"}, del("*/k"), add("d/k", 4)}, []int{0, 0, 1, 1, 2, 2}, 80, 1000},
+		{"walksorted-delcond", []SOp{add("a/x", 1), add("a/y", 2), add("b", 3), {K: "walksorted"}, {K: "delcond", P: P("a")}, {K: "walk"}}, []int{0, 0, 1, 1, 2, 2}, 80, 1000},
+		{"query-delete-glob", []SOp{add("a/k", 1), add("b/z", 2), add("c/k", 3), qry("*/*"), del("*/k"), qry("")}, []int{0, 0, 1, 1, 2, 2}, 80, 1000},
+		{"walkerr-delete", []SOp{add("a/k", 1), add("b/k", 2), {K: "walksortederr", V: 1}, del("*"), {K: "walkerr", V: 0}, add("c", 3)}, []int{0, 0, 1, 1}, 80, 1000},
 		{"two-holds-get", []SOp{add("a/b", 1), hold("a/b", 5), get("a/b"), del("a"), hold("a/b", 6)}, []int{0, 0}, 60, 2000},
 		{"hold-get-add", []SOp{add("a/b", 1), add("a/c", 2), hold("a/b", 5), get("a/b"), add("a/b", 7), get("a/c"), del("a/b")}, []int{0, 0, 1, 1}, 80, 3000},
 		{"two-deleters", []SOp{add("a/b", 1), add("a/c/d", 2), del("a/b"), del("a"), add("a/c/e", 3)}, []int{0, 0}, 80, 3000},
@@ -410,7 +430,9 @@ func scenarios() []scenario {
 var randOps = func(r *vh.Rand) SOp {
 	paths := []string{"a", "a/b", "a/b/c", "a/c", "a/b/d", "d", "d/e"}
 	p := P(paths[r.Intn(len(paths))])
-	switch r.Pick(50, 12, 10, 18, 10, 8) {
+	switch r.Pick(50, 12, 10, 18, 10, 8, 8) {
+	case 6:
+		return SOp{K: []string{"walk", "walksorted", "walkerr", "walksortederr"}[r.Intn(4)], P: []string{}, V: int64(r.Intn(2))}
 	case 5:
 		return SOp{K: "queryerr", P: p, V: int64(r.Intn(2))}
 	case 0:
